@@ -11,7 +11,7 @@ from ..ref import geometry as rgeo
 ID = 'C05'
 RULE = ('Generated: rule-conforming base antenna (free space or ideal ground; straight and tapered wires, arcs, '
         'helices) with 1..2 sources and 0..2 lumped loads; a list of 1..5 whole-structure rotations (1..3 non-zero '
-        'angles) and translations (up to 1000 wavelengths) with distinct sort keys, optionally a scale 0.01..100 '
+        'angles) and translations (up to 1000 wavelengths) with distinct and with equal sort keys, optionally a scale 0.01..100 '
         'with the frequency divided by it (over ground: z-rotations and horizontal shifts only); optionally '
         'additional per-tag transformations.  Oracle (a): impedances and currents of the moved/scaled antenna '
         'equal those of the base (5e-4, conditioning gate), total gain equal at rigidly moved directions (0.01 dB). '
@@ -45,7 +45,10 @@ def case_strategy(draw, big=False):
     base_keys = [x['key'] for x in case['xforms']]
     k0 = (max(base_keys) if base_keys else 0) + 1
     n = draw(st.sampled_from([1, 1, 2, 2, 3, 4, 5]))
-    keys = draw(st.lists(st.integers(0, 30), min_size=n, max_size=n, unique=True))
+    # equal keys are allowed (a third of the cases draws from three values only): such transformations are applied
+    # in the order of the option list, rotations first
+    keys = draw(st.lists(st.integers(0, 30) if draw(st.integers(0, 2)) else st.integers(0, 2), min_size=n, max_size=n,
+                         unique=False))
     motion = []
     for k in keys:
         kind = draw(st.sampled_from(['rotate', 'rotate', 'translate']))
@@ -203,6 +206,28 @@ def check(case):
         if abs(a.impedance - b.impedance) > tol1 * abs(a.impedance):
             fails.append(('invariance:impedance:' + what, 'feed impedance %r becomes %r' % (a.impedance, b.impedance)))
             break
+    if fails:
+        # classification only (finding F-C05): the order of the Gauss quadrature of a matrix entry is chosen by
+        # comparing (d0 + d3) / segment length with 6 and 10; on every uniformly segmented straight wire that ratio
+        # equals 6 and 10 exactly, so rounding decides and the result of one and the same antenna scatters.  The
+        # scatter of the base under numerically irrelevant rotations about z is measured; a deviation that is not
+        # larger than four times this scatter is attributed to it.
+        worst_i, worst_z = 0.0, 0.0
+        try:
+            for ang in (1e-7, 1e-6, 1e-5, 1e-3):
+                nb = copy.deepcopy(base)
+                kmax = max([x['key'] for x in nb['xforms']] + [0.0])
+                nb['xforms'] = list(nb['xforms']) + [{'kind': 'rotate', 'key': kmax + 1000.0, 'v': [0.0, 0.0, ang], 'tag': None}]
+                mn = common.solved(nb)
+                In = np.array(mn.current)
+                worst_i = max(worst_i, np.abs(In - I0).max() / np.abs(I0).max())
+                worst_z = max(worst_z, max(abs(a.impedance - b.impedance) / abs(a.impedance) for a, b in zip(m0.sources, mn.sources)))
+            errz = max(abs(a.impedance - b.impedance) / abs(a.impedance) for a, b in zip(m0.sources, m1.sources))
+            if max(worst_i, worst_z) > 10 * 1.75e-6 and err <= 4 * max(worst_i, 1e-300) + 1.75e-6 and errz <= 4 * max(worst_z, 1e-300) + 1.75e-6:
+                fails = [(sig + ':result-scatters-under-null-rotation', det + ' [the unmoved antenna rotated by 1e-7..1e-3 deg '
+                          'about z: currents scatter by %.3g, impedances by %.3g]' % (worst_i, worst_z)) for sig, det in fails]
+        except build.Rejected:
+            pass
     if m0.power > 0 and m1.power > 0:
         R = total_rotation(motion)
         dirs0 = case['dirs']
